@@ -211,6 +211,24 @@ def native(art, tier, stats, fnd):
             if accept:
                 r2 = run(["-o", "-", prog]); n += 1
                 if r2.stdout != open(out).read(): fnd.report("stdout-differs-from-file", "%s: `-o -` and `-o FILE` give different bytes" % prog, {"main.sy": open(os.path.join(d, prog)).read()})
+        # one rejected program per phase that can reject (parser, resolver, dependency order, type checker, entry point): exit status 1, an error printed, no FILE;
+        # with `-o -` nothing but the report on stdout
+        phases = {"syntax": "start :: fn do\n    x := ) 1\nend\n", "unresolved_name": "start :: fn do\n    print(nope)\nend\n", "initialiser_depends_on_itself": "a :: a + 1\nstart :: fn do\nend\n",
+                  "initialiser_depends_on_itself_after_start": "start :: fn do\nend\ncounter :: if 1 < 2 do counter + 1 else 0 end\n", "list_contains_itself": "xs :: [xs]\nstart :: fn do\nend\n",
+                  "initialiser_calls_function_of_itself": "idf :: fn v: int -> int do ret v end\ny :: idf(y)\nstart :: fn do\nend\n", "two_initialisers_in_a_cycle": "a :: b + 1\nb :: a + 1\nstart :: fn do\nend\n",
+                  "cycle_with_a_definition_leading_into_it": "lead :: a + 1\na :: a * 2\nstart :: fn do\n    print(lead)\nend\n", "type_mismatch": PROG_BAD, "assignment_to_constant": "k :: 1\nstart :: fn do\n    k = 2\nend\n",
+                  "no_start": "helper :: fn do\nend\n", "start_with_parameter": "start :: fn a: int do\nend\n", "duplicate_definition": "d :: 1\nd :: 2\nstart :: fn do\nend\n", "break_outside_loop": "start :: fn do\n    break\nend\n"}
+        for ph, text in phases.items():
+            for extra in ([], ["--no-std"]):
+                pf = os.path.join(d, "ph_%s.sy" % ph); open(pf, "w").write(text); out = os.path.join(d, "ph_%s.lua" % ph)
+                if os.path.exists(out): os.remove(out)
+                r = run(["-o", out] + extra + [pf]); r2 = run(["-o", "-"] + extra + [pf]); n += 2
+                what = None
+                if r.returncode != 1 or r2.returncode != 1: what = "exit status %d (-o FILE) / %d (-o -)" % (r.returncode, r2.returncode)
+                elif "error" not in (r.stdout + r.stderr).lower() or "error" not in (r2.stdout + r2.stderr).lower(): what = "no error is printed"
+                elif os.path.exists(out): what = "FILE was created (%d bytes)" % os.path.getsize(out)
+                elif "-- End Sylt preamble" in r2.stdout: what = "`-o -` printed a program although the exit status is 1"
+                if what: fnd.report("rejected-program:%s" % ph, "a program rejected for `%s`%s: %s" % (ph.replace("_", " "), " with --no-std" if extra else "", what), {"main.sy": text}, cmd="sylt -o out.lua %smain.sy; echo $?; ls out.lua" % ("--no-std " if extra else "")); break
         # "prints every error": k independent errors planted -> each one is reported
         multi = {"three_missing_modules": ({"m.sy": "use audio\nuse video\nuse net/socket\nstart :: fn do\nend\n"}, ["audio", "video", "socket"]),
                  "missing_modules_and_syntax_error": ({"m.sy": "use audio\nuse video\nx := ) 1\nstart :: fn do\nend\n"}, ["audio", "video", "m.sy:3"]),
